@@ -35,7 +35,8 @@ StartSession == /\ upper = 0
 AddHere(t) == /\ upper > 0 /\ Len(session) < MaxSession
               /\ db' = Apply(db, AddOp(t))
               /\ session' = Append(session, [n |-> Res(db, AddOp(t)).n, t |-> t])
-              /\ UNCHANGED <<upper, foreign, ndel, live, stale, w, ac>>
+              /\ stale' = (stale \/ live)
+              /\ UNCHANGED <<upper, foreign, ndel, live, w, ac>>
               /\ Log([H0 EXCEPT !.a = "AddHere", !.t = t, !.n = Res(db, AddOp(t)).n])
 AddElsewhere(t) == /\ upper > 0 /\ Cardinality(foreign) < MaxForeign
                    /\ db' = Apply(db, AddOp(t))
